@@ -36,7 +36,8 @@ Section EngineProofs.
   (* the uncached search is an exact k-NN: *)
   Hypothesis O_live : forall c q k id d, In (id, d) (fresh_search c q k) ->
                         exists v, c_get c id = Some v /\ isd q v d.
-  Hypothesis O_omit : forall c q k id v, c_get c id = Some v ->
+  Hypothesis O_len : forall c q k, (length (fresh_search c q k) <= k)%nat.
+  Hypothesis O_omit : forall c q k id v, (1 <= k)%nat -> c_get c id = Some v ->
                         ~ In id (map fst (fresh_search c q k)) ->
                         length (fresh_search c q k) = k /\
                         exists w, worst (fresh_search c q k) = Some w /\ dlt q v w = false.
@@ -51,11 +52,15 @@ Section EngineProofs.
         exists w, worst (e_results e) = Some w /\ dlt (e_query e) v w = false).
 
   Lemma valid_fresh c scope q k :
+    fresh_search c q k <> [] ->
     Valid c (new_entry scope q (fresh_search c q k) k).
   Proof.
+    intro Hne.
+    assert (Hk : (1 <= k)%nat).
+    { pose proof (O_len c q k). destruct (fresh_search c q k); [congruence|]. cbn [length] in *. lia. }
     unfold Valid, new_entry, e_ids. cbn [e_results e_query e_kreq]. split.
     - intros id d H. apply (O_live _ _ _ _ _ H).
-    - intros id v Hv Hn. destruct (O_omit c q k id v Hv Hn) as [Hl Hw].
+    - intros id v Hv Hn. destruct (O_omit c q k id v Hk Hv Hn) as [Hl Hw].
       split; [rewrite Hl; lia|exact Hw].
   Qed.
 
@@ -135,7 +140,7 @@ Section EngineProofs.
           cbn zeta in S. destruct S as [C3 [_ [Sub3 _]]].
           split; [exact C3|]. intros e He. destruct (Sub3 e He) as [Ho|Hn].
           -- apply HV. apply Sub1. apply Sub2. exact Ho.
-          -- subst e. rewrite <- Er. apply valid_fresh.
+          -- subst e. rewrite <- Er. apply valid_fresh. rewrite Er. discriminate.
     - (* insert *)
       pose proof (invalidate_doc_spec (e_cache st) id HC) as D.
       destruct (invalidate_doc (e_cache st) id) as [s1 n1]. cbn [fst] in D. destruct D as [C1 [_ Sub1]].
